@@ -452,8 +452,9 @@ func (r *Resolver) onStructLike(g *Scope, name string, t *parser.Type, v *parser
 		}
 
 		if NeedRedirect(f) {
-			if f.Type.Category.IsBaseType() {
+			if f.Type.Category.IsBaseType() || f.Type.Category == parser.Category_Enum {
 				// a trick to create pointers without temporary variables
+				// (enum values are constants too: '&Color_RED' is not addressable)
 				val = fmt.Sprintf("(&struct{x %s}{%s}).x", typ, val)
 			}
 			if !strings.HasPrefix(val, "&") {
